@@ -119,6 +119,13 @@ def run(ctx):
             at = len(cases) * (k + 1) // (3 if tier == "quick" else 11)
             cases[at:at] = [(host, "none"), (f"*=0x{lo + 1:02x}8000\n.db 1\n", "unmapped-after-map-program"),
                             (f"*=0x008000\nnop\n*=0x{lo + 2:02x}9000\nlda #1\n", "unmapped-code-after-map-program")]
+        # a program that defined and applied a macro must not make that macro known to the next program of the process
+        for k in range(2 if tier == "quick" else 10):
+            nm = f"zq_shared_{k}"
+            host = f"*=0x008000\n.macro {nm}(v) {{\n.db v\n}}\n{nm}({k + 1})\n"
+            at = len(cases) * (k + 1) // (4 if tier == "quick" else 12)
+            cases[at:at] = [(host, "none"), (f"*=0x008000\n{nm}({k + 2})\n", "undefined-macro-after-defining-program"),
+                            (f"*=0x008000\nnop\n{{\n{nm}(7)\n}}\n", "undefined-macro-in-block-after-defining-program")]
         cli_budget = 40 if tier == "quick" else 600
         for src, kind in cases:
             if isinstance(src, bytes):
